@@ -281,7 +281,10 @@ Example C05_conv_int_exact_partial_ex :    (* '0012.0' converted, <- 7 *)
     fortran_float "0012.0" = Ok (mkD false 12 0) /\ conv_int "0012.0" = Ok 12 /\
     py_eq (VInt 12) (VFlt (mkD false 12 0)) = true /\
     format (set_value nd (VInt 7)) = Ok "7      ".
-Proof. eexists. repeat split; vm_compute; reflexivity. Qed.
+Proof.
+  eexists. split; [vm_compute; reflexivity|]. split; [vm_compute; reflexivity|].
+  split; [vm_compute; reflexivity|]. split; vm_compute; reflexivity.
+Qed.
 Print Assumptions C05_conv_int_exact_partial_ex.
 
 (* ------------------------------------------------------------------------------------------------
